@@ -721,5 +721,24 @@ def main():
                    max_report=3 if fam == "minimised" else 1)
     nops = sum(len(c.meta["ops"]) for c in cases)
     ck.dist["operations"] = nops
+    kinds, modes, topo = {}, {}, {"indexed_register": 0, "struct_entry": 0, "pvalue_wrapper": 0, "command": 0,
+                                  "register_outside_image": 0, "self_invalidator": 0, "port_invalidator": 0}
+    for c in cases:
+        for o in c.meta["ops"]:
+            kinds[o[0]] = kinds.get(o[0], 0) + 1
+        ns = c.meta["nodes"]
+        for i, n in enumerate(ns):
+            if n["t"] == "reg":
+                modes[n["mode"]] = modes.get(n["mode"], 0) + 1
+                topo["indexed_register"] += bool(n["index"])
+                topo["struct_entry"] += n["struct"] is not None
+                topo["register_outside_image"] += n["addr"] + n["len"] > c.meta["base"] + len(c.meta["image"])
+                topo["self_invalidator"] += i in n["inval"]
+                topo["port_invalidator"] += len(ns) in n["inval"]
+            topo["pvalue_wrapper"] += n["t"] == "int"
+            topo["command"] += n["t"] == "cmd"
+    ck.dist["op_kinds"] = kinds
+    ck.dist["register_modes"] = modes
+    ck.dist["topology"] = topo
     ck.dist["histories_with_rejection"] = sum(any(o[0] == "rej" for o in c.meta["ops"]) for c in cases)
     ck.finish()
